@@ -229,6 +229,13 @@ CLAIMS["C23"]["note"] = "Stack depth at the `?` site for every expression shape 
 for _c in ("C01", "C02"):
     CLAIMS[_c]["text"] += " No emitted instruction is unreachable behind an unconditional transfer (EMIT-DEAD)."
 CLAIMS["C32"]["text"] += " Each location table records its entries depending on nothing but its own last entry (LOC-DISCIPLINE)."
+for _c in ("C04", "C34"):
+    CLAIMS[_c]["text"] += " Method lookups by name are unwrapped only in a prelude interface that declares the method or in an implementation already proven complete by a diverging output-type guard (UNWRAP-GUARD); type-argument lists are never indexed with a constant without a length test (INDEX-LIT); a MAX sentinel never enters plain arithmetic (SENTINEL-ARITH)."
+CLAIMS["C04"]["note"] = "Not decided: termination and recursion depth, and panic-freedom of the remaining offset arithmetic and slice indexing in the lexer/parser (value reasoning)."
+CLAIMS["C18"]["text"] += " Every subscript of the slot table is bounds-tested and the slot count is the declared parameter count (ARG-MISUSE)."
+CLAIMS["C36"]["text"] += " Every exit of a from_vm (both binding flavours) has consumed the value it converts (MIRROR)."
+CLAIMS["C37"]["text"] += " Membership, id and size queries answer from the index tables only, never from the occupancy of the storage buffers (OWN-IDSET)."
+CLAIMS["C38"]["text"] += " The growth test bounds every additive term of the written extent (ARENA-BOUNDS)."
 NOT_APPLICABLE["C33"] = "unit inference (char index vs byte offset vs token index) over lexer/parser/diagnostics needs the type-resolved MIR engine with per-field def-use; that engine was not completed in the time available, and no sound syntactic proxy was found (a name-based one would alarm on behaviour-preserving edits)"
 
 for _p in []:
